@@ -13,7 +13,7 @@ Overview: Provides reusable helper functions to eliminate duplication across lin
 Dependencies: BaseLintContext from src.core.base, ast for Python parsing
 
 Exports: get_metadata, get_metadata_value, load_linter_config, has_file_content, parse_python_ast,
-    with_parsed_python, resolve_file_path, is_ignored_path, get_line_context
+    with_parsed_python, resolve_file_path, project_relative_path, is_ignored_path, get_line_context
 
 Interfaces: All functions take BaseLintContext and return typed values (dict, str, bool, Any)
 
@@ -28,6 +28,7 @@ Suppressions:
 
 import ast
 from collections.abc import Callable
+from pathlib import Path
 from typing import Any, Protocol, TypeVar
 
 from src.core.base import BaseLintContext
@@ -267,6 +268,32 @@ def resolve_file_path(context: BaseLintContext) -> str:
         File path string, or "unknown" if not available
     """
     return str(context.file_path) if context.file_path else "unknown"
+
+
+def project_relative_path(context: BaseLintContext) -> str:
+    """Path of the linted file inside its project, written with a leading "/".
+
+    Path-based exemptions (test directories, ignore patterns) must depend on where the
+    file lives in the project, not on where the project is checked out or on how the
+    target was spelled on the command line. Falls back to the path as given when the
+    project root is unknown or the file lies outside it.
+
+    Args:
+        context: Lint context
+
+    Returns:
+        "/<path inside project>", or the path as given, or "unknown"
+    """
+    if not context.file_path:
+        return "unknown"
+    project_root = get_metadata(context).get("_project_root")
+    if project_root is not None:
+        try:
+            inside = Path(context.file_path).resolve().relative_to(Path(project_root).resolve())
+            return "/" + inside.as_posix()
+        except (ValueError, OSError):
+            pass
+    return str(context.file_path)
 
 
 def is_ignored_path(file_path: str, ignore_patterns: list[str]) -> bool:
